@@ -889,7 +889,7 @@ def mon_c13(api, rng, budget, variants):
             viol.append(violation('C13', p, msg))
     # under bus and pin failures: whatever fails, no byte may be clocked while chip-select is high (a failed pin call leaves the level unchanged)
     faulted = api_programs(api, rng, max(60, budget // 2), ctors=('spi', 'spi3'), fault_rate=0.35)
-    faulted += [q for q in fault_sweep_programs(api, rng, ('spi',), max_k=8)][:max(60, budget // 2)]
+    faulted += sample_up_to(rng, fault_sweep_programs(api, rng, ('spi',), max_k=8), max(120, budget // 2))
     for i, q in enumerate(faulted):
         q.id = 'f13_%d' % i
     fimpl = corr.run_impl(faulted, 'default', dump_each=True, tag='mon13f')
@@ -898,6 +898,14 @@ def mon_c13(api, rng, budget, variants):
         d = fimpl[q.id]['dumps']
         if d and d[-1] != [0]:
             viol.append(violation('C13', q, '%d byte(s) clocked while chip-select was high (calls with injected bus / pin failures)' % d[-1][0]))
+            continue
+        # whatever failed inside it, a call that reports success has released chip-select (its last pin operation is the release)
+        for r in implrun.records(q, fimpl[q.id]):
+            if r.ok() and r.raw:
+                levels = [c[0] for c in r.raw if c[0] in ('cs_low', 'cs_high')]
+                if levels and levels[-1] != 'cs_high':
+                    viol.append(violation('C13', q, 'successful call %r returns with chip-select asserted (a failure inside it was not reported)' % (r.call if r.call else 'constructor',)))
+                    break
     return {'cases': cases, 'violations': viol[:20], 'samples': [programs[0].describe()],
             'notes': ['single ordered journal of pin edges and transfers decoded per chip-select window; both SPI constructors; '
                       'programs with injected bus and pin failures judged on the bytes the chip saw while chip-select was high']}
